@@ -633,6 +633,45 @@ func (rg *ranger) lenOf(s ssa.Value, at *ssa.BasicBlock, depth int) (itv, bool) 
 		if str, ok := constString(x); ok {
 			return point(int64(len(str))), true
 		}
+	case *ssa.Parameter:
+		// a slice handed to a helper: the length facts of the arguments at all its static call sites
+		fn := x.Parent()
+		if fn == nil || depth > 6 {
+			return itv{}, false
+		}
+		idx := -1
+		for i, q := range fn.Params {
+			if q == x {
+				idx = i
+			}
+		}
+		sites := rg.p.callersOf(fn)
+		if idx < 0 || len(sites) == 0 {
+			return itv{}, false
+		}
+		var r itv
+		first := true
+		for _, site := range sites {
+			cc := site.Common()
+			if cc.StaticCallee() != fn || idx >= len(cc.Args) {
+				return itv{}, false
+			}
+			ar, ok := rg.lenOf(cc.Args[idx], site.Block(), depth+1)
+			if !ok {
+				return itv{}, false
+			}
+			if first {
+				r, first = ar.dropSym(), false
+			} else {
+				r = join(r, ar.dropSym())
+			}
+		}
+		if !first {
+			if r.why != "" {
+				r.why += " (at every call site of " + shortFn(fn) + ")"
+			}
+			return r, true
+		}
 	case *ssa.Phi:
 		if depth > 10 {
 			return itv{}, false
@@ -909,6 +948,10 @@ func (rg *ranger) applyCond(v ssa.Value, key string, r itv, c cond, depth int) i
 					return true
 				}
 			}
+		}
+		// a value that a helper returns at the position from which v was taken (summary of the helper injected)
+		if resultBinding(v, a) || resultBinding(stripConv(v), a) {
+			return true
 		}
 		// comparison made on the same value before/after an integer conversion that preserves sign range
 		sa, sv := stripConv(a), stripConv(v)
